@@ -225,7 +225,7 @@ func clipInts(a []int) string {
 func init() {
 	RegisterRapid("C20_output_and_faults",
 		"rapid generates (n in 0..9 quick / 0..24 thorough, weight table with zero, negative, >= 2^40 and position-dependent entries; the weight function flags any call outside 0 <= j < i < n). Per case: the fault-free output is parsed by an independent TSPLIB reader and compared with the table; then the fault space is ENUMERATED COMPLETELY: for every index f of the W Write calls of the fault-free run x {only call f fails, f and all later calls fail} x {0 bytes accepted, half accepted} LIB must return a non-nil error (4*W schedules per case). Non-trivial: n >= 2 (the tabwriter-buffered weight section is non-empty).",
-		Budget{Checks: 1200, Shards: 1}, Budget{Checks: 3000, Shards: 8}, genTspCase, checkTspCase)
+		Budget{Checks: 1200, Shards: 1}, Budget{Checks: 10000, Shards: 16}, genTspCase, checkTspCase)
 	RegisterEnum("C20_small_n_exhaustive_faults",
 		"enumeration: every n in 0..12 with the fixed position-coded table w(i,j) = 100*i+j (and its negation), all 4*W fault schedules each; complete for that family.",
 		true, Budget{Shards: 1}, Budget{Shards: 1},
